@@ -290,13 +290,22 @@ func deadlockSig(d string) string {
 	if i < 0 || j < i {
 		return "?"
 	}
-	var sites []string
+	// the set of lock sites waited on (tasks blocked in channel operations are
+	// consequences, and their number varies with the workload)
+	set := map[string]bool{}
 	for _, w := range strings.Fields(d[i+1 : j]) {
-		if k := strings.Index(w, "@"); k >= 0 {
-			sites = append(sites, w[k+1:])
+		if k := strings.Index(w, "@lockwait:"); k >= 0 {
+			set[w[k+len("@lockwait:"):]] = true
 		}
 	}
+	var sites []string
+	for s := range set {
+		sites = append(sites, s)
+	}
 	sort.Strings(sites)
+	if len(sites) == 0 {
+		return "no-lock-waiters"
+	}
 	return strings.Join(sites, ",")
 }
 
